@@ -60,5 +60,6 @@ def run_random(shard, ctx, groups, nontrivial_fn, owns=None, max_steps=40, exact
 
 
 def shrink(case, obs, fp, matcher, deadline):
-    h, o = sm.shrink_history(case["frontend"], case["history"], fp, deadline, reuse=case.get("reuse", False), approx=case.get("approx", False))
+    known = (lambda h, f, o: matcher.match(f, {**case, "history": h}, o) is not None) if matcher is not None else None
+    h, o = sm.shrink_history(case["frontend"], case["history"], fp, deadline, reuse=case.get("reuse", False), approx=case.get("approx", False), is_known=known)
     return {**case, "history": h}, (o if o is not None else obs)
